@@ -517,8 +517,9 @@ class MQTTBaseProtocol(Protocol):
         if self._pingReq.alarm:
             self._pingReq.alarm.cancel()
             self._pingReq.alarm = None
-        self.doConnectionLost(reason)
+        # back to IDLE first: errbacks fired by the clean-up below may call the API
         self.state = self.IDLE
+        self.doConnectionLost(reason)
         # The disconnect callback is invoked in another reactor loop cycle
         # Otherwise, the reconnection attempt happens before connection cleanup
         # which obviopusly it si not what we want.
